@@ -172,6 +172,7 @@ theorem rb_table_tail {tag : Tag} (h : tag.isStart ["table"] = true) :
 theorem body_in_scope {m : Mode} {r : Id} {ph : Phase} {s : State} (hb : Big m r ph s)
     (hi : InScP defaultScope (namedP "body".toList) s) :
     ∃ b up', s.openElems = r :: b :: up' ∧ ph = .pb b ∧ ∀ h, s.headElem = some h → h ∉ b :: up' := by
+  have hnp := hb.notPf
   obtain ⟨up, hc, hbb, _, _⟩ := hb
   obtain ⟨below, x, above, h1, h2, _⟩ := hi
   have hxn := namedP_eq h2
@@ -188,7 +189,7 @@ theorem body_in_scope {m : Mode} {r : Id} {ph : Phase} {s : State} (hb : Big m r
         subst hph; obtain ⟨h', e1, _, e3⟩ := hc.elems; rw [h0] at e1; cases e1; exact e3
       rw [this] at hxn; revert hxn; decide
     · rw [ht] at hxn; revert hxn; decide
-    · have := hc.bh x (by rw [hu]; simp [hxm])
+    · have := hc.bh4 hnp x (by rw [hu]; simp [hxm])
       rw [hxn] at this; revert this; decide
   · exfalso
     rw [hc.stack, hu] at hxm
@@ -196,7 +197,7 @@ theorem body_in_scope {m : Mode} {r : Id} {ph : Phase} {s : State} (hb : Big m r
     rcases hxm with rfl | rfl | hxm
     · rw [hc.root_name] at hxn; revert hxn; decide
     · rw [ht] at hxn; revert hxn; decide
-    · have := hc.bh x (by rw [hu]; simp [hxm])
+    · have := hc.bh4 hnp x (by rw [hu]; simp [hxm])
       rw [hxn] at this; revert this; decide
 
 /-- a state in which `</body>` / `</html>` may end the body -/
@@ -511,6 +512,7 @@ theorem rbw_generic_end {tag : Tag} (h5 : ¬ tag.isEnd ["body"] = true) (h6 : ¬
         · exact h6 (hen _ (by simp))
         · apply h2; rw [hen ["template"] (by simp)]; simp
       obtain ⟨popped, p, hpop⟩ := processEndTagInBody_sem e1
+      have hnp := hb.notPf
       have hmode : s'.mode = m := by rw [p.rest]; exact hm
       obtain ⟨up, hc, hbb, _, _⟩ := id hb
       have hst := p.stack
@@ -550,7 +552,7 @@ theorem rbw_generic_end {tag : Tag} (h5 : ¬ tag.isEnd ["body"] = true) (h6 : ¬
               rw [hbn] at hxn
               have : tag.name = "body".toList := (congrArg EName.loc hxn).symm
               exact hnot "body" (by simp) this
-            · have := hc.bh x (by rw [hu]; exact hxu)
+            · have := hc.bh4 hnp x (by rw [hu]; exact hxu)
               rw [hname] at this; cases this
           · rw [hu] at hxu
             simp only [List.mem_cons] at hxu
@@ -596,7 +598,7 @@ theorem rbw_generic_end {tag : Tag} (h5 : ¬ tag.isEnd ["body"] = true) (h6 : ¬
             · rw [htn] at hxn
               have : tag.name = "template".toList := (congrArg EName.loc hxn).symm
               exact hnot "template" (by simp) this
-            · have := hc.bh x (by rw [hu]; simp [hxu])
+            · have := hc.bh4 hnp x (by rw [hu]; simp [hxu])
               rw [hname] at this; cases this
           · rw [hu] at hxu
             simp only [List.mem_cons] at hxu
@@ -604,7 +606,7 @@ theorem rbw_generic_end {tag : Tag} (h5 : ¬ tag.isEnd ["body"] = true) (h6 : ¬
             · rw [htn] at hxn
               have : tag.name = "template".toList := (congrArg EName.loc hxn).symm
               exact hnot "template" (by simp) this
-            · have := hc.bh x (by rw [hu]; exact hxu)
+            · have := hc.bh4 hnp x (by rw [hu]; exact hxu)
               rw [hname] at this; cases this
         · exact keepName_cursory h1
       · -- a mode without a witness: structure elements may be popped, the anchors are not
@@ -654,7 +656,7 @@ theorem rbw_generic_end {tag : Tag} (h5 : ¬ tag.isEnd ["body"] = true) (h6 : ¬
                     · have hbn : nm s.dom x = hN "body" := by
                         subst hph; obtain ⟨_, _, _, _, hb'⟩ := hc.elems; exact hb'
                       rw [hbn, hn] at hxn; revert hxn; decide
-                    · have := hc.bh x (by rw [hu]; exact hxu)
+                    · have := hc.bh4 hnp x (by rw [hu]; exact hxu)
                       rw [hname] at this; cases this
                   · rw [hu] at hxu
                     simp only [List.mem_cons] at hxu
@@ -696,13 +698,13 @@ theorem rbw_generic_end {tag : Tag} (h5 : ¬ tag.isEnd ["body"] = true) (h6 : ¬
                         exact hnot "template" (by simp) this
                       · rw [htn] at h3; revert h3; decide
                     · rw [htn, hn] at hxn; revert hxn; decide
-                    · have := hc.bh x (by rw [hu]; simp [hxu])
+                    · have := hc.bh4 hnp x (by rw [hu]; simp [hxu])
                       rw [hname] at this; cases this
                   · rw [hu] at hxu
                     simp only [List.mem_cons] at hxu
                     rcases hxu with rfl | hxu
                     · rw [htn, hn] at hxn; revert hxn; decide
-                    · have := hc.bh x (by rw [hu]; exact hxu)
+                    · have := hc.bh4 hnp x (by rw [hu]; exact hxu)
                       rw [hname] at this; cases this
                 · exact hnot "template" (by simp) hn
             · cases hq : htmlIn (nm s.dom x) ["html", "body", "head", "template"] with
